@@ -910,6 +910,9 @@ def exact_int(v):
     return v
 
 
+ALLOW_MUTABLE_VECTOR_KEYS = False
+
+
 def install_prims(m):
     g = m.globals.vars
 
@@ -1311,6 +1314,8 @@ def install_prims(m):
 
     # hash maps
     def hkey(k):
+        if isinstance(k, MVector) and ALLOW_MUTABLE_VECTOR_KEYS:
+            return canon(k)      # (C11's equality programs never mutate a key after it was inserted)
         if isinstance(k, (Closure, Prim, Cont, MVector, Box)):
             raise Unsupported("mutable / procedure hash key")
         if isinstance(k, float):
